@@ -264,6 +264,8 @@ SPECIAL = [
     ('nested-in-section-in-file', b'include("@f1.conf")', {b'f1.conf': b'sec { include("@f2.conf") }\n', b'f2.conf': b'x = 4 l = {5}'}, b'sec { x = 4 l = {5} }'),
     ('error-in-section-in-file', b'sec {\ninclude("@f1.conf")\n}', {b'f1.conf': b'x = 4\nx = bad\n'}, None),
     ('error-after-include-in-section', b'sec {\ninclude("@f1.conf")\nx = bad }', {b'f1.conf': b'x = 4\n\n\n'}, None),
+    ('error-in-section-reentered-after-include', b'include("@f1.conf")\nsec {\nx = bad }', {b'f1.conf': b'sec { x = 4 }\n'}, None),
+    ('error-in-section-reentered-in-file', b'sec { x = 1 }\ninclude("@f1.conf")', {b'f1.conf': b'\nsec {\nx = bad }'}, None),
     ('unterminated-string-in-file', b'include("@f1.conf")\ni = 8', {b'f1.conf': b's = "abc'}, None),
     ('unterminated-comment-in-file', b'include("@f1.conf")\ni = 8', {b'f1.conf': b'i = 7 /* abc'}, None),
     ('titled-instances-across-files', b'include("@f1.conf") include("@f2.conf")', {b'f1.conf': b'm { x = 1 }', b'f2.conf': b'm { x = 2 } m { }'}, b'm { x = 1 } m { x = 2 } m { }'),
